@@ -178,11 +178,33 @@ func runC07(c *Ctx) {
 				continue
 			}
 			k := f.KeyAt(enc, ept)
-			re, _ := f.Resolve(enc, ept)
+			re, rept := f.Resolve(enc, ept)
 			// case A: loaded mark + interval
 			if b, ok := ast.Unparen(re).(*ast.BinaryExpr); ok && b.Op == token.ADD {
-				a, c := stripRoot(exprKey(b.X)), stripRoot(exprKey(b.Y))
-				if (a == ".next" && c == ".interval") || (a == ".interval" && c == ".next") {
+				a, c := stripRoot(f.KeyAt(b.X, rept)), stripRoot(f.KeyAt(b.Y, rept))
+				base := b.X
+				if a == ".interval" {
+					a, c, base = c, a, b.Y
+				}
+				// the base is next itself, or the very value that every path stored into next before
+				isNext := a == ".next"
+				if !isNext && c == ".interval" {
+					n := 0
+					isNext = true
+					for _, w := range f.Find(assignsField("next")) {
+						// the loads of next that can reach the store write
+						if _, reaches := f.reach(w, nil, func(q Point, atExit bool) bool { return !atExit && f.At(q, pt) }); !reaches {
+							continue
+						}
+						n++
+						was, isAs := f.nodeAt(w).(*ast.AssignStmt)
+						if !isAs || was.Tok != token.ASSIGN || len(was.Rhs) != 1 || !f.SameValue(base, rept, was.Rhs[0], w) {
+							isNext = false
+						}
+					}
+					isNext = isNext && n > 0
+				}
+				if isNext && c == ".interval" {
 					// next must have been (re)loaded from the store or initialised on not-found on every
 					// path since the lease was found exhausted
 					if wit, found := f.PathFromEntryAvoiding(pt, assignsField("next"), nil); found {
@@ -224,7 +246,7 @@ func runC07(c *Ctx) {
 				continue // seq.next++ / += in Next, handled below
 			}
 			key := "next load in " + fkey
-			if isConstZero(info, as.Rhs[0]) {
+			notFoundEdges := func() []Edge {
 				edges, _ := f.CondEdges(func(e ast.Expr) bool {
 					c, ok := e.(*ast.CallExpr)
 					if !ok || len(c.Args) != 2 {
@@ -242,6 +264,10 @@ func runC07(c *Ctx) {
 					dc, isCall := ast.Unparen(src).(*ast.CallExpr)
 					return isCall && isStoreGet(dc)
 				})
+				return edges
+			}
+			if isConstZero(info, as.Rhs[0]) {
+				edges := notFoundEdges()
 				if wit, ok := f.OnlyThroughEdges(w, edges); ok {
 					r.Pass("seq/init-only-on-notfound", key+" (zero)", f.PosOf(w), "counter starts from 0 only when the store reports ErrKeyNotFound")
 				} else {
@@ -249,20 +275,39 @@ func runC07(c *Ctx) {
 				}
 				continue
 			}
-			// loaded value: decoded from the bytes returned by store.Get
-			src, spt := f.Resolve(as.Rhs[0], w)
-			okSrc := false
-			if c, ok := ast.Unparen(src).(*ast.CallExpr); ok && len(c.Args) == 1 {
-				if from, _ := f.Resolve(c.Args[0], spt); from != nil {
-					if dc, isCall := ast.Unparen(from).(*ast.CallExpr); isCall && isStoreGet(dc) {
-						okSrc = true
+			// loaded value: every expression the value can come from is decoded from the bytes returned
+			// by store.Get, or is the constant 0 chosen behind the ErrKeyNotFound edge
+			okSrc, bad := true, ""
+			origins := f.Origins(as.Rhs[0], w)
+			for _, o := range origins {
+				if isConstZero(info, o.E) {
+					if wit, ok := f.OnlyThroughEdges(o.At, notFoundEdges()); !ok {
+						r.Fail("seq/init-only-on-notfound", key+" (zero)", f.PosOf(o.At), "the counter is reset to 0 on a path that did not see ErrKeyNotFound (a transient read error re-issues every number)", wit...)
+					} else {
+						r.Pass("seq/init-only-on-notfound", key+" (zero)", f.PosOf(o.At), "counter starts from 0 only when the store reports ErrKeyNotFound")
+					}
+					continue
+				}
+				src, spt := f.Resolve(o.E, o.At)
+				good := false
+				if c, ok := ast.Unparen(src).(*ast.CallExpr); ok && len(c.Args) == 1 {
+					if from, _ := f.Resolve(c.Args[0], spt); from != nil {
+						if dc, isCall := ast.Unparen(from).(*ast.CallExpr); isCall && isStoreGet(dc) {
+							good = true
+						}
 					}
 				}
+				if !good {
+					okSrc, bad = false, exprKey(src)
+				}
+			}
+			if len(origins) == 0 {
+				okSrc, bad = false, "no origin found"
 			}
 			if okSrc {
 				r.Pass("seq/init-only-on-notfound", key+" (loaded)", f.PosOf(w), "next is decoded from the bytes read from the store")
 			} else {
-				r.Fail("seq/init-only-on-notfound", key+" (loaded)", f.PosOf(w), "next is set from something other than the stored mark ("+exprKey(src)+")")
+				r.Fail("seq/init-only-on-notfound", key+" (loaded)", f.PosOf(w), "next is set from something other than the stored mark ("+bad+")")
 			}
 		}
 	}
@@ -329,7 +374,14 @@ func runC07(c *Ctx) {
 			ast.Inspect(fd.Body, func(n ast.Node) bool {
 				if rs, ok := n.(*ast.ReturnStmt); ok && len(rs.Results) == 2 && isNil(info, rs.Results[1]) {
 					as := f.nodeAt(reads[0]).(*ast.AssignStmt)
-					if objOfIdent(info, rs.Results[0]) != nil && objOfIdent(info, rs.Results[0]) == objOfIdent(info, as.Lhs[0]) {
+					res := rs.Results[0]
+					if rpt, found := f.PointOf(rs); found {
+						// through a hand-out helper: what the helper returns
+						if re, rept := f.Resolve(res, rpt); re != nil && ast.Unparen(re) == ast.Unparen(as.Rhs[0]) && f.At(rept, reads[0]) {
+							okRet = true // resolves to the very read of next at the hand-out point
+						}
+					}
+					if objOfIdent(info, res) != nil && objOfIdent(info, res) == objOfIdent(info, as.Lhs[0]) {
 						okRet = true
 					}
 				}
